@@ -111,6 +111,16 @@ CONFIGS = {
         "settleAllValidators", "updateAllianceAsset", "rewardWeightChangeHook",
         "distrHookWithdraw", "rebalanceBondTokenWeights", "rebalanceHook", "endBlocker",
         "msgDelegate", "msgUndelegate", "msgRedelegate", "msgClaim", "msgUpdateAlliance", "msgDeleteAlliance"}),
+ "BS": ("(w.bank, w.supply, w.staking.bondDenom)", "bsframe",
+       {"setBalance", "sendCoin", "sendCoins", "mintCoin", "burnCoin", "withdrawRewards", "addAssetsToRewardPool",
+        "claimValidatorRewards", "claimDelegationRewards", "settleBeforeDeposit",
+        "delegate", "undelegate", "redelegate", "payEntry", "payBucket", "completeUnbondings",
+        "slashRedelegations", "slashUndelegations", "slashValidator", "beforeValidatorSlashed",
+        "settleAllValidators", "updateAllianceAsset", "deductAssetsWithTakeRate", "deductAssetsHook", "rewardWeightChangeHook",
+        "distrHookWithdraw", "stakingDelegate", "stakingUnbond", "rebalanceBondTokenWeights", "rebalanceHook", "endBlocker",
+        "msgDelegate", "msgUndelegate", "msgRedelegate", "msgClaim", "msgUpdateAlliance"}),
+ "SS": ("(w.supply, w.staking.bondDenom)", "ssframe",
+       {"mintCoin", "burnCoin", "completeUnbondings", "rebalanceBondTokenWeights", "rebalanceHook", "endBlocker"}),
  "Staking": ("(w.staking, w.time, w.height)", "sframe",
              {"setSVal", "stakingDelegate", "stakingUnbond", "rebalanceBondTokenWeights", "rebalanceHook", "endBlocker"}),
  "Redel": ("(w.redels, w.redelQueue, w.redelIndex)", "rframe",
